@@ -746,6 +746,14 @@ class SArr:
     def __matmul__(self, o):
         return matmul(self, o)
 
+    def __abs__(self):
+        return _np_abs(self)
+
+    def max(self, axis=None):
+        if axis is not None:
+            raise Unsupported("max over an axis")
+        return abstract_max(self)
+
     def _cmp(self, o, f):
         def g(a, b):
             r = f(LF.of(a).value()._cmp_real(), LF.of(b).value()._cmp_real())
@@ -1617,6 +1625,8 @@ def _np_max(a, axis=None):
 
 
 def _np_clip(a, lo, hi):
+    if hi is None and not isinstance(lo, SArr):
+        return _np_maximum(a, lo)
     def f(v):
         x = v.value()._cmp_real()
         l, h = LF.of(lo).value()._cmp_real() if not isinstance(lo, SArr) else None, LF.of(hi).value()._cmp_real() if not isinstance(hi, SArr) else None
@@ -1627,6 +1637,62 @@ def _np_clip(a, lo, hi):
         t = broadcast2(a, lo_a, lambda v, l: LF(C(Sym(z3.If(v.value()._cmp_real().t < l.value()._cmp_real().t, l.value()._cmp_real().t, v.value()._cmp_real().t)))))
         return broadcast2(t, hi_a, lambda v, h: LF(C(Sym(z3.If(v.value()._cmp_real().t > h.value()._cmp_real().t, h.value()._cmp_real().t, v.value()._cmp_real().t)))))
     return elementwise(a, f)
+
+
+_MAXREG = []
+
+
+def abstract_max(a):
+    """max of a real value array with symbolic extents: a fresh M that is attained at some index (Skolem index) and
+    bounds every element (instances M >= a[idx] are added on request with max_bounds())"""
+    n = prod(a.shape)
+    side_obligation("def:max-of-nonempty-array", _lift(n) >= 1)
+    M = z3.Real(core.fresh_name("max"))
+    snap = a._snapshot()
+    ist = [z3.Int(core.fresh_name("argmax")) for _ in a.shape]
+    define(z3.And(*[z3.And(i >= 0, i < _lift(e)) for i, e in zip(ist, a.shape)]))
+    define(M == snap(tuple(ist)).value().re)
+    define(M >= snap(tuple(z3.IntVal(0) for _ in a.shape)).value().re)      # the maximum bounds the first element
+    _MAXREG.append((M, snap, a.shape))
+    return Sym(M)
+
+
+def max_bounds(idx):
+    """instances  M >= a[idx]  for every abstract maximum taken so far (idx must lie in the array's box)"""
+    out = []
+    for M, snap, shape in _MAXREG:
+        if len(shape) == len(idx):
+            inb = z3.And(*[z3.And(_lift(i) >= 0, _lift(i) < _lift(e)) for i, e in zip(idx, shape)])
+            out.append(z3.Implies(inb, M >= snap(tuple(_lift(i) for i in idx)).value().re))
+    return out
+
+
+def _np_maximum(a, b):
+    f = lambda x, y: LF(C(Sym(z3.If(x.value()._cmp_real().t >= y.value()._cmp_real().t, x.value()._cmp_real().t, y.value()._cmp_real().t))))
+    if isinstance(a, SArr) and isinstance(b, SArr):
+        return broadcast2(a, b, f)
+    if isinstance(a, SArr):
+        bv = LF.of(b)
+        return elementwise(a, lambda v: f(v, bv))
+    if isinstance(b, SArr):
+        av = LF.of(a)
+        return elementwise(b, lambda v: f(av, v))
+    return core.sym_max(a, b)
+
+
+class _MGrid:
+    def __getitem__(self, idx):
+        if not isinstance(idx, tuple):
+            idx = (idx,)
+        exts = []
+        for s_ in idx:
+            if not isinstance(s_, slice) or s_.start is not None or s_.step is not None:
+                raise Unsupported("mgrid with start/step")
+            exts.append(s_.stop)
+        out = []
+        for d in range(len(exts)):
+            out.append(SArr(tuple(exts), (lambda k, d=d: LF(C(Sym(k[d])))), IDT))
+        return out if len(out) > 1 else out[0]
 
 
 def _np_size(a):
@@ -1682,6 +1748,8 @@ class _Numpy(_NS):
     asarray = staticmethod(_np_asarray)
     array = staticmethod(_np_array)
     clip = staticmethod(_np_clip)
+    maximum = staticmethod(_np_maximum)
+    mgrid = _MGrid()
     squeeze = staticmethod(_np_squeeze)
     max = staticmethod(_np_max)
     amax = staticmethod(_np_max)
